@@ -42,7 +42,14 @@ type scen struct {
 	Arrivals  []tk   `json:"arrivals"`
 	Own       []tk   `json:"own"`
 	Lists     [][]tk `json:"lists"`
-	JSON      bool   `json:"json"` // pass the block through its JSON encoding first, as the network does
+	Nots      []notm `json:"nots,omitempty"` // Notarization messages, each for a fresh block of the same generator
+	JSON      bool   `json:"json"`           // pass the block through its JSON encoding first, as the network does
+}
+
+// notm is one Notarization message: the (valid) tickets the block already holds and the message's tickets.
+type notm struct {
+	Own []tk `json:"own"`
+	In  []tk `json:"in"`
 }
 
 var groupOrder, _ = new(big.Int).SetString("16798108731015832284940804142231733909759579603404752749028378864165570215949", 10)
@@ -413,8 +420,104 @@ func run1(s scen) *outcome {
 			o.fail("valid-notarization-rejected", fmt.Sprintf("VerifyNotarization rejected %d valid tickets of distinct miners (threshold %d): %v", len(l), thr, verr))
 		}
 	}
-	o.coq = fmt.Sprintf("(Build_ntc_case (%s) (%s) (%s) (%s) (%s) (%s) (%s) (%s))",
-		vh.Nat(s.N), vh.Nat(thr), vh.List(coqArr), vh.NatList(coqStore), vh.List(coqOwn), vh.Bool(notarized), vh.NatList(merged), vh.List(coqLists))
+	// 4. Notarization messages through the real notarizationProcess, each on a fresh block
+	var coqNots []string
+	for k, nm := range s.Nots {
+		b2 := block.NewBlock(c.GetKey(), rn)
+		b2.MinerID = w.Miners[s.Gen].ID
+		b2.PrevHash = pb.Hash
+		b2.CreationDate = b.CreationDate + common.Timestamp(k+1)
+		b2.SetRoundRandomSeed(888)
+		b2.LatestFinalizedMagicBlockHash = pb.Hash
+		b2.LatestFinalizedMagicBlockRound = w.MB.StartingRound
+		b2.HashBlock()
+		b2.Signature, _ = w.Miners[s.Gen].Scheme.Sign(b2.Hash)
+		b2.SetStateStatus(block.StateSuccessful)
+		raw2, _ := hex.DecodeString(b2.Hash)
+		e2 := &env{s: s, w: w, out: out, hash: b2.Hash, raw: string(raw2), xsk: e.xsk}
+		var ownTerms, inTerms []string
+		for _, t := range nm.Own {
+			vt, term := e2.build(t)
+			if !e2.isValid(t) {
+				continue // only verified tickets get into a block on the paths modelled here
+			}
+			if b2.AddVerificationTicket(vt) {
+				ownTerms = append(ownTerms, term)
+			}
+		}
+		b2 = c.AddBlock(b2)
+		not := &miner.Notarization{BlockID: b2.Hash, Round: rn}
+		for _, t := range nm.In {
+			vt, term := e2.build(t)
+			not.VerificationTickets = append(not.VerificationTickets, vt)
+			inTerms = append(inTerms, term)
+		}
+		nerr := v.MC.VerifNotarizationProcess(ctx, not)
+		time.Sleep(time.Millisecond)
+		flag := b2.IsBlockNotarized()
+		inR := false
+		for _, nb := range mr.GetNotarizedBlocks() {
+			if nb.Hash == b2.Hash {
+				inR = true
+			}
+		}
+		treated := flag || inR
+		o.hist[fmt.Sprintf("notarization-message-notarized-%v", treated)]++
+		if nerr != nil {
+			o.hist["notarization-message-error"]++
+		}
+		var after []int
+		seenV := map[int]bool{}
+		validV := map[int]bool{}
+		repeated := false
+		for _, vt := range b2.GetVerificationTickets() {
+			i, ok := idOf[vt.VerifierID]
+			if !ok {
+				i = 9999
+				for _, t := range nm.In {
+					if t.V < 0 && vt.VerifierID == encryption.Hash(fmt.Sprintf("made up verifier %d", t.V)) {
+						i = s.N + 100 - t.V
+					}
+				}
+			}
+			after = append(after, i)
+			if seenV[i] {
+				repeated = true
+			}
+			seenV[i] = true
+			if i < s.N && verifies(w.Miners[i], vt.Signature, b2.Hash) {
+				validV[i] = true
+			}
+		}
+		one := s
+		one.Arrivals, one.Own, one.Lists, one.Nots = nil, nil, nil, []notm{nm}
+		_ = one
+		if repeated {
+			o.fail("block-tickets-repeat-a-verifier", fmt.Sprintf("after the notarization message %+v the block's ticket list has verifiers %v", nm, after))
+		}
+		if treated && len(validV) < thr {
+			// only errors that cancel in the aggregate check (C32) excuse this
+			sum, none, members := big.NewInt(0), false, true
+			for _, t := range nm.In {
+				if d := e2.errOf(t); d == nil {
+					none = true
+				} else {
+					sum.Add(sum, d)
+				}
+				if t.V < 0 || t.V >= s.N {
+					members = false
+				}
+			}
+			if repeated || none || !members || len(seenV) < thr || sum.Mod(sum, groupOrder).Sign() != 0 {
+				o.fail("notarization-message-below-threshold", fmt.Sprintf("notarization message %+v: block treated as notarized (flag=%v, in round=%v) with %d distinct valid miner tickets, threshold %d of %d", nm, flag, inR, len(validV), thr, s.N))
+			} else {
+				o.hist["notarization-message-cancelling-errors"]++
+			}
+		}
+		coqNots = append(coqNots, fmt.Sprintf("((%s, %s), (%s, %s))", vh.List(ownTerms), vh.List(inTerms), vh.Bool(treated), vh.NatList(after)))
+	}
+	o.coq = fmt.Sprintf("(Build_ntc_case (%s) (%s) (%s) (%s) (%s) (%s) (%s) (%s) (%s))",
+		vh.Nat(s.N), vh.Nat(thr), vh.List(coqArr), vh.NatList(coqStore), vh.List(coqOwn), vh.Bool(notarized), vh.NatList(merged), vh.List(coqLists), vh.List(coqNots))
 	return o
 }
 
@@ -502,6 +605,23 @@ func gen(r *vh.Rand, n int, wseed uint64) scen {
 	if thr >= 2 {
 		s.Lists = append(s.Lists, full[:thr-1])
 	}
+	// notarization messages
+	rep := func(t tk, k int) []tk {
+		var l []tk
+		for i := 0; i < k; i++ {
+			l = append(l, t)
+		}
+		return l
+	}
+	one := tk{V: r.Intn(n), Kind: "valid"}
+	s.Nots = append(s.Nots, notm{In: rep(one, thr+r.Intn(2))})                        // one valid ticket repeated
+	s.Nots = append(s.Nots, notm{In: append([]tk{}, full...)})                        // exactly threshold distinct valid
+	s.Nots = append(s.Nots, notm{In: append(rep(full[0], 2), full[1:]...)})           // threshold distinct with a repeat
+	s.Nots = append(s.Nots, notm{Own: []tk{one}, In: append(rep(one, thr), full...)}) // block holds one, message repeats it
+	if thr >= 2 {
+		s.Nots = append(s.Nots, notm{In: append(rep(full[0], 2), full[1:thr-1]...)}) // threshold-1 distinct, threshold tickets
+	}
+	s.Nots = append(s.Nots, notm{Own: genTickets(r, n, r.Intn(n), true), In: genTickets(r, n, r.Range(1, n+2), r.Chance(3, 4))})
 	return s
 }
 
@@ -558,8 +678,21 @@ func main() {
 				}
 				*get(&min) = l
 			}
-			if !strings.HasPrefix(k, "notarization-") && k != "valid-notarization-rejected" {
+			if !strings.HasPrefix(k, "notarization-accepted") && k != "valid-notarization-rejected" {
 				min.Lists = nil
+			}
+			if len(min.Nots) > 1 {
+				for _, nm := range min.Nots {
+					s2 := min
+					s2.Nots = []notm{nm}
+					if _, bad := run(s2).descs[k]; bad {
+						min = s2
+						break
+					}
+				}
+			}
+			if _, bad := func() (string, bool) { s2 := min; s2.Nots = nil; d, b := run(s2).descs[k]; return d, b }(); bad {
+				min.Nots = nil
 			}
 			shrink(func(x *scen) *[]tk { return &x.Arrivals })
 			shrink(func(x *scen) *[]tk { return &x.Own })
